@@ -190,6 +190,8 @@ class Judge:
             cond = bool(cond.all())
         if not cond:
             sig = f"{prefix or self.gen}|{what}"
+            if callable(detail):
+                detail = detail()
             return self.ctx.violation(sig, f"{self.gen}: {msg}", detail)
         return True
 
